@@ -34,6 +34,17 @@ Proof. exact @escalate_secret_only_at_prompt. Qed.
 Theorem C12_window_refuted : ~ (forall (net : netcfg) (target : bytes) (p : level) (t : list obs), lookup_level (n_levels net) target = Some p -> lv_escalate_auth p = true -> n_secondary net <> [] -> n_secondary net <> lv_escalate p -> n_secondary net <> c_ret (n_chan net) -> ptrace (n_chan net) (escalate net target) t -> guard_ok (n_chan net) (n_secondary net) (lv_escalate_prompt p) (escalate_complete net p) false t).
 Proof. exact @escalate_guarded_refuted. Qed.
 
+(* THE TIE BY TRANSLATION for the search window: channel/read.go processReadBuf as the source has
+   it on this run is, for every buffer and every search depth, the model's process_read_buf — the
+   whole buffer when it is not longer than the depth, else its last [sd] bytes, cut at the first
+   line feed when that is not at index 0 *)
+From Scrapli Require Import DecideLang GeneratedSkel ChannelSrc.
+Theorem C12_process_read_buf_is_source : forall rb sd,
+  exists w, prb_run (Nat.leb (length rb) sd)
+                    (match lf_index_pos (tail_of rb sd) with Some _ => true | None => false end) = Some w
+            /\ process_read_buf rb sd = window_of rb sd w.
+Proof. exact process_read_buf_is_source. Qed.
+
 Print Assumptions C12_traces_cover_executions.
 Print Assumptions C12_paced.
 Print Assumptions C12_return_after_echo.
@@ -77,3 +88,4 @@ Proof. exact get_prompt_result. Qed.
 Print Assumptions C12_result_whole.
 Print Assumptions C12_send_input_result.
 Print Assumptions C12_get_prompt_result.
+Print Assumptions C12_process_read_buf_is_source.
